@@ -3,7 +3,7 @@ CONSTANTS
   Cfgs <- CfgsStack
   Pres <- PresUpTo2
   Extras = {"none", "opaque", "algmd5", "algsess", "algbogus"}
-  QopQfs <- QopQfsQuick
+  QopQfs <- QopQfsMid
   FixErr = TRUE
   FixNoPw = TRUE
   FixEnc = TRUE
